@@ -10,7 +10,7 @@ RANGE_OF_FIELD = None
 def leaf_ranges(row):
     """[(lo, hi)] per operand leaf from the encode layout."""
     out = []
-    for (_, _pos, w, signed) in row["enc"][1:]:
+    for (_, _pos, w, signed, *_rest) in row["enc"][1:]:
         out.append((-(2 ** (w - 1)), 2 ** (w - 1) - 1) if signed else (0, 2 ** w - 1))
     return out
 
@@ -148,9 +148,19 @@ def coq_pinstr(p):
     return f"({s(p[0])}, {lst(z(v) for v in p[1])})"
 
 
+def _zz_raw(x):
+    return x if isinstance(x, int) and not isinstance(x, bool) else -(10 ** 30)
+
+
+def _zz(x):
+    """ints as they are; anything else (None, str, ...) as an impossible sentinel"""
+    return z(x) if isinstance(x, int) and not isinstance(x, bool) else z(-(10 ** 30))
+
+
 def coq_view(v):
     if v is None:
         return "None"
+    v = (_zz_raw(v[0]), _zz_raw(v[1]), _zz_raw(v[2]), v[3])
     return f"(Some ({z(v[0])}, {z(v[1])}, {z(v[2])}, {lst(coq_pinstr(p) for p in v[3])}))"
 
 
